@@ -240,7 +240,7 @@ theorem cell_facts (segs : List Nat) (t : SegType) (mfv n : Nat) (arr : Mask) (h
     (ha : ArrOK segs t n arr) (hmfv : t = .fractional → mfv ≤ 255) (bits : Nat) (hbits : bitsFor t segs = .ok bits)
     (sg : Option Nat) (hsg : sg ∈ segmentsIterable t segs) (p : Nat) (pl : Plane) (hp : arr.plane? p = some pl) :
     ∃ px, cellE arr segs t mfv sg p = .ok px ∧ px.length = n ∧ (∀ v ∈ px, v < 2 ^ bits) ∧
-      (pl.any = false → px.any (· != 0) = false) := by
+      (pl.any mfv = false → px.any (· != 0) = false) := by
   obtain ⟨hb3, hb1, hb8, hbl⟩ := bits_bound t segs bits hbits
   unfold cellE
   rw [hp]
@@ -347,9 +347,7 @@ theorem cell_facts (segs : List Nat) (t : SegType) (mfv n : Nat) (arr : Mask) (h
           rw [List.any_eq_false] at hany ⊢
           intro v hvm
           obtain ⟨x, hxm, rfl⟩ := List.mem_map.mp hvm
-          have := hany x hxm
-          simp at this; subst this
-          simp [quantise_zero]
+          exact hany x hxm
     | fltStack ps =>
       have htf := ha.1
       simp only [Mask.plane?] at hp
@@ -378,11 +376,8 @@ theorem cell_facts (segs : List Nat) (t : SegType) (mfv n : Nat) (arr : Mask) (h
           have h1 := haa i (by omega) hi
           have hmem : a[i] ∈ px[i]'(by omega) := List.mem_of_getElem? h1
           have h2 := hany _ (List.getElem_mem (by omega : i < px.length))
-          have h0 : a[i] = 0 := by
-            by_contra hne
-            exact h2 (List.any_eq_true.mpr ⟨_, hmem, by simpa using hne⟩)
-          rw [h0]
-          simp [quantise_zero]
+          intro hc
+          exact h2 (List.any_eq_true.mpr ⟨_, hmem, hc⟩)
 
 /-! ## combining stacked segments into a label map -/
 
